@@ -138,6 +138,15 @@ def cases(chk):
         {"auto": False, "contacts": 1, "events": [["recv", 0, 1], ["reinstall", 0], ["recv", 0, 2], ["recv", 0]]},
         {"auto": True, "contacts": 1, "events": [["send", 0], ["reinstall", 0], ["recv", 0, 1], ["send", 0]]},
     ]
+    # the same contact reinstalls more than once in one process life, each new identity first seen through an incoming message / a key bundle /
+    # an identity notification: with automatic trust on, messaging resumes EVERY time
+    corpus += [
+        {"auto": True, "contacts": 1, "events": [["recv", 0], ["reinstall", 0], ["recv", 0], ["reinstall", 0], ["recv", 0], ["send", 0], ["reinstall", 0], ["recv", 0]]},
+        {"auto": True, "contacts": 1, "events": [["send", 0], ["reinstall", 0], ["send", 0], ["reinstall", 0], ["send", 0], ["recv", 0]]},
+        {"auto": True, "contacts": 2, "events": [["recv", 0], ["recv", 1], ["reinstall", 0], ["recv", 0], ["reinstall", 1], ["recv", 1], ["reinstall", 0], ["notify", 0], ["recv", 0],
+                                                  ["reinstall", 1], ["recv", 1, 1]]},
+        {"auto": False, "contacts": 1, "events": [["recv", 0], ["reinstall", 0], ["recv", 0], ["auto", 1], ["recv", 0], ["reinstall", 0], ["recv", 0], ["auto", 0], ["reinstall", 0], ["recv", 0]]},
+    ]
     # whose pin an incoming stanza is checked against: every chat shape x participant present / absent x envelope kind
     for chat in ("4915200002@s.whatsapp.net", "4915200002-1400000000@g.us", "status@broadcast", "1500000099@broadcast", "4915200003@s.whatsapp.net"):
         for part in (None, "4915200002@s.whatsapp.net", "4915200003@s.whatsapp.net"):
